@@ -263,6 +263,19 @@ static void c05_db(const ZI* const* reg, uint16_t n, int shard, int nshards, lon
     for (const Tr& t : trs) for (int d = -3; d <= 3; d++) { if (t.T + d >= LO && t.T + d < HI) { c05_instant(nm.c_str(), plain, t.T + d, &others); c05_instant((nm + "(managed)").c_str(), managed, t.T + d, &others); } }
     for (int64_t t = LO + rng.below(7000); t < HI; t += 86400 * 3 + 7777) { c05_instant(nm.c_str(), plain, t, nullptr); c05_instant((nm + "(managed)").c_str(), managed, t, nullptr); }
     for (int k = 0; k < 200; k++) { int64_t t = rng.range(LO, HI - 2); c05_instant(nm.c_str(), plain, t, &others); }
+    // month edges next to a query in the ADJACENT year, going backwards and forwards in time: the processors key their year
+    // caches by the UTC year while the cached window is in local time, so "a valid instant" must round-trip whatever was asked before
+    for (int y = 2049; y >= 2001; y -= 1) {
+      int64_t mid = days_from_civil(y, 7, 2) * 86400 + 43200;
+      int64_t dec1 = days_from_civil(y - 1, 12, 1) * 86400, feb1 = days_from_civil(y + 1, 2, 1) * 86400;
+      for (int64_t off : {0LL, 3600LL, 5 * 3600LL, 9 * 3600LL, 11 * 3600LL + 1799, -3600LL, -11 * 3600LL}) {
+        if (mid >= LO && mid < HI) { c05_instant(nm.c_str(), plain, mid, nullptr); c05_instant((nm + "(managed)").c_str(), managed, mid, nullptr); }
+        if (dec1 + off >= LO && dec1 + off < HI) { c05_instant(nm.c_str(), plain, dec1 + off, nullptr); c05_instant((nm + "(managed)").c_str(), managed, dec1 + off, nullptr); }
+        if (mid >= LO && mid < HI) c05_instant(nm.c_str(), plain, mid, nullptr);
+        if (feb1 + off >= LO && feb1 + off < HI) { c05_instant(nm.c_str(), plain, feb1 + off, nullptr); c05_instant((nm + "(managed)").c_str(), managed, feb1 + off, nullptr); }
+        CNT.add("conv.month_edge_after_adjacent_year", 2);
+      }
+    }
     // transitions of the *targets* as well
     for (size_t oi = 0; oi < 2; oi++) { std::vector<Tr> ot = find_transitions(others[oi]); for (size_t k = 0; k < ot.size(); k += 3) for (int d = -1; d <= 1; d++) if (ot[k].T + d >= LO && ot[k].T + d < HI) c05_instant(nm.c_str(), plain, ot[k].T + d, &others); }
     delete p; delete q; delete r;
